@@ -26,7 +26,10 @@ package main
 
 import (
 	"bytes"
+	_ "embed"
+	"encoding/json"
 	"fmt"
+	"os"
 	"reflect"
 	"strings"
 	"sync"
@@ -57,7 +60,7 @@ func run(c *vf.Ctx) {
 	u := smbgen.Setup(c, restore)
 	c.Rule("per command structure: the all-default assignment, every single field x every value of its lattice (integers: the byte-distinct values 0x0102 / 0x01020304 / " +
 		"0x0102030405060708, their complements, 0x8001.., 0x00FF, 0xFF00.. and all-ones; strings, buffers, dates, arrays, 0..4 dialects) and every pair of such settings; singles " +
-		"(thorough: pairs, and powers of two +-1 added to the integer lattices) from the all-non-default base; AndX blocks with command/reserved/offset byte-distinct; every header field; each case compared in both directions with the reference codec. " +
+		"(thorough: pairs, and powers of two +-1 added to the integer lattices) from the all-non-default base; AndX blocks with command/reserved/offset byte-distinct; every header field; each case compared in both directions with the reference codec; every count field left stale (0, count+1, all-ones) next to its non-empty buffer: the emitted count is the value the structure holds after Marshal. " +
 		"distinct = distinct (structure, assignment) pairs compared")
 	c.Assume("refsmb encoder is MS-CIFS: little-endian integers at the width of the declared type, AndX = command, reserved, little-endian offset; buffer-format strings per 2.2.1.1; the strings of " +
 		"SESSION_SETUP_ANDX, TREE_CONNECT_ANDX, NT_CREATE_ANDX, OPEN_ANDX and the TRANSACTION name are plain NUL-terminated strings without format byte; self-tested on published packets")
@@ -82,6 +85,7 @@ func run(c *vf.Ctx) {
 				smbgen.Fatalf(c, "explore %s: %v", cmd.Name, err)
 			}
 		}
+		w.staleCounts()
 		if cmd.AndX {
 			lat := w.lat
 			for _, ax := range andxValues() {
@@ -307,6 +311,21 @@ func (w *worker) eval(a *refsmb.Assign, r *explore.Run, ax *andx.AndX) {
 	w.check(w.key("decode-ref"), uerr == nil, func() string {
 		return fmt.Sprintf("%s.Unmarshal(%s) = %v; input = MS-CIFS encoding of {%s}", cmd.Name, vf.HexS(wire), uerr, label)
 	})
+	if uerr != nil && ax == nil {
+		// "decode-ref" is a known finding for 23 structures. A finding is identified by the inputs that fail:
+		// the minimal classes (base, set of explicitly set fields) refused on the unchanged tree are committed
+		// in known_decode_classes.json (generated by tools/c04classes.py, never written at run time); a
+		// refused case outside them is a different violation and gets its own key.
+		cls := devClass(a)
+		if os.Getenv("C05_DEBUG_CLASSES") != "" {
+			fmt.Fprintf(os.Stderr, "CLASS %s decode-ref %s\n", cmd.Name, cls)
+		}
+		if !explained(cmd.Name, cls) {
+			w.check(w.key("decode-ref/input-class:"+cls), false, func() string {
+				return fmt.Sprintf("%s.Unmarshal(%s) = %v; input = MS-CIFS encoding of {%s}; no case of this class (%s) is refused on the unchanged tree", cmd.Name, vf.HexS(wire), uerr, label, cls)
+			})
+		}
+	}
 	bad := true
 	if !upanic {
 		bad = w.decoded("", label, want, d, wire)
@@ -319,6 +338,126 @@ func (w *worker) eval(a *refsmb.Assign, r *explore.Run, ax *andx.AndX) {
 			w.decoded("-modulo-andx", label, want, d2, stripped)
 		}
 	}
+}
+
+// staleCounts: a count field that the caller left stale (0, or one more than the buffer holds) next to a
+// non-empty buffer. Whether Marshal derives the count from the buffer or trusts the caller is the library's
+// choice - but the bytes it emits must be the encoding of ONE definite set of field values, namely the ones
+// the structure holds when Marshal returns: a count that Marshal corrects in the structure but emits stale
+// (or the reverse) is an encoding of no value at all. The byte order of the emitted count is judged by the
+// layout/byteorder obligations, not here.
+func (w *worker) staleCounts() {
+	cmd := w.cmd
+	for _, f := range cmd.Fields {
+		if f.Rel == nil || (f.Rel.Kind != refsmb.RCount && f.Rel.Kind != refsmb.RStrLen) || f.Kind != refsmb.KInt || f.Width > 4 {
+			continue
+		}
+		a := cmd.FullAssign(w.lat)
+		good, err := a.Build()
+		if err != nil {
+			continue
+		}
+		lay, err := cmd.Encode(good)
+		if err != nil || lay.Odd {
+			continue
+		}
+		slot := lay.SlotOf(f)
+		if slot == nil || slot.Len != f.Width {
+			continue
+		}
+		consistent := reflect.ValueOf(good).Elem().Field(f.Index).Uint()
+		mask := uint64(1)<<(8*uint(f.Width)) - 1
+		for _, stale := range []uint64{0, (consistent + 1) & mask, mask} {
+			if stale == consistent {
+				continue
+			}
+			x, _ := a.Build()
+			fv := reflect.ValueOf(x).Elem().Field(f.Index)
+			fv.SetUint(stale)
+			b, merr, _, _ := smbgen.Marshal(x)
+			if merr != nil {
+				continue // refusing an inconsistent structure is fine
+			}
+			fr, ferr := refsmb.ParseFrame(b)
+			if ferr != nil {
+				continue
+			}
+			sec := fr.Words
+			if slot.Sec == refsmb.SecData {
+				sec = fr.Data
+			}
+			if slot.Off+slot.Len > len(sec) {
+				continue
+			}
+			libb := sec[slot.Off : slot.Off+slot.Len]
+			var leV, beV uint64
+			for i := 0; i < len(libb); i++ {
+				leV |= uint64(libb[i]) << (8 * uint(i))
+				beV = beV<<8 | uint64(libb[i])
+			}
+			after := fv.Uint()
+			label := fmt.Sprintf("%s; then %s set to %d (the buffer it counts holds %d)", a.Label(), f.Name, stale, consistent)
+			w.c.Case([]byte(cmd.Name), []byte(label))
+			w.check(w.key(f.Name+"/emitted-count-is-the-value-the-structure-holds-after-Marshal"), leV == after || beV == after, func() string {
+				return fmt.Sprintf("%s{%s}.Marshal() emits %x in the slot of %s (bytes [%d,%d) of the %s) while the structure holds %s=%d when Marshal returns: the message encodes neither the caller's value nor the corrected one consistently; library bytes %s",
+					cmd.Name, label, libb, f.Name, slot.Off, slot.Off+slot.Len, map[bool]string{true: "data block", false: "parameter words"}[slot.Sec == refsmb.SecData], f.Name, after, vf.HexS(b))
+			})
+		}
+	}
+}
+
+//go:embed known_decode_classes.json
+var knownClassesJSON []byte
+
+var knownClasses = func() map[string][][]string {
+	var raw map[string][]string
+	if err := json.Unmarshal(knownClassesJSON, &raw); err != nil {
+		panic("known_decode_classes.json: " + err.Error())
+	}
+	out := map[string][][]string{}
+	for cmd, l := range raw {
+		for _, c := range l {
+			out[cmd] = append(out[cmd], strings.Split(c, ","))
+		}
+	}
+	return out
+}()
+
+// explained: some listed class of cmd has the same base and only fields that cls sets too.
+func explained(cmd, cls string) bool {
+	have := strings.Split(cls, ",")
+	for _, k := range knownClasses[cmd] {
+		if k[0] != have[0] {
+			continue
+		}
+		all := true
+		for _, f := range k[1:] {
+			found := false
+			for _, h := range have[1:] {
+				if h == f {
+					found = true
+				}
+			}
+			all = all && found
+		}
+		if all {
+			return true
+		}
+	}
+	return false
+}
+
+func devClass(a *refsmb.Assign) string {
+	p := []string{"base=zero"}
+	if a.Full {
+		p[0] = "base=full"
+	}
+	for i, k := range a.Dev {
+		if k > 0 {
+			p = append(p, a.C.Fields[i].Name)
+		}
+	}
+	return strings.Join(p, ",")
 }
 
 func (w *worker) params(label string, fr *refsmb.Frame, ref *refsmb.Layout, b []byte) {
